@@ -5,7 +5,9 @@ import PsModel.Lemmas.C05
 Only property statements live here; helper lemmas are in `Lemmas/C05.lean`.
 
 `New.current` / `New.preFix` are the deviation flags of the new subsystem's `_cycle` after / before the `fix:` commits
-`d4cc584` and `9670c81`; `New.holdRuns` is the machine with the current flags.
+`d4cc584`, `9670c81` and `e7ed034`; `New.holdRuns` is the machine with the current flags.  `WaitUntil.firstReturn` /
+`WaitUntil.firstReturnPreFix` are legacy `task.wait_until` after / before fix `07b3e39`.  On the current tree all four
+machines satisfy the FULL statement; every former `_cex` is now a `_regress_` theorem about the pre-fix values.
 `Spec.holdRuns cfg b0 hist` is the documented timeline; `Legacy.holdRuns` the loop-variable machine of
 `trigger_watch`; `WaitUntil.firstReturn` the one of legacy `task.wait_until`; `New.holdRuns` / `New.firstReturn` the
 machine of `StateTriggerDecorator` (decorator / inside `task.wait_until`).  All theorems are for every configuration
@@ -28,53 +30,49 @@ theorem C05_legacy (cfg : Cfg) (b0 : Bool) (hist : List Evt) (h : NoTies cfg his
   rw [← hsim]
   rfl
 
-/-- **Legacy `task.wait_until` = first run of the decorator loop** (every history, no grid needed), except in the
-configuration of `C05_waituntil_cex`: `state_check_now` (the default) together with `state_hold_false` while the
-expression is initially false. -/
-theorem C05_waituntil_lockstep (cfg : Cfg) (b0 : Bool) (hist : List Evt)
-    (hok : ¬ (cfg.checkNow = true ∧ cfg.holdFalse.isSome = true ∧ b0 = false)) :
+/-- **Legacy `task.wait_until` = first run of the decorator loop** – every configuration, every history (no grid
+needed).  Full since fix `07b3e39` (before it: not for `state_check_now ∧ state_hold_false ∧ initially false`, see
+`C05_waituntil_regress_init_false`). -/
+theorem C05_waituntil_lockstep (cfg : Cfg) (b0 : Bool) (hist : List Evt) :
     WaitUntil.firstReturn cfg b0 hist = (Legacy.holdRuns cfg b0 hist).head? :=
-  wu_sim cfg hist _ _ (wj_start cfg b0 hok)
+  wu_sim cfg hist _ _ (wj_start cfg b0)
 
-/-- **Legacy `task.wait_until`: first return = first run of the timeline** (partial, see above). -/
-theorem C05_waituntil_partial (cfg : Cfg) (b0 : Bool) (hist : List Evt) (h : NoTies cfg hist)
-    (hok : ¬ (cfg.checkNow = true ∧ cfg.holdFalse.isSome = true ∧ b0 = false)) :
+/-- **Legacy `task.wait_until`: full.**  The first return is the first run of the timeline. -/
+theorem C05_waituntil (cfg : Cfg) (b0 : Bool) (hist : List Evt) (h : NoTies cfg hist) :
     WaitUntil.firstReturn cfg b0 hist = (Spec.holdRuns cfg b0 hist).head? := by
-  rw [C05_waituntil_lockstep cfg b0 hist hok, C05_legacy cfg b0 hist h]
+  rw [C05_waituntil_lockstep cfg b0 hist, C05_legacy cfg b0 hist h]
 
-/-- witness: `task.wait_until(state_trigger=…, state_hold_false=0)` (check_now defaults to True), expression false at
-the call: the initial False is not recorded (`state_false_time` stays `None`), so the first true evaluation at 2 s
-is ignored; it returns only at 6 s after a later False.  The timeline (and the decorator) fire at 2 s. -/
-theorem C05_waituntil_cex :
+/-- regression (fixed by `07b3e39`): `task.wait_until(state_trigger=…, state_hold_false=0)` (check_now defaults to
+True), expression false at the call.  BEFORE the fix the initial False was not recorded (`state_false_time` stayed
+`None`), the first true evaluation at 2 s was ignored and the call returned only at 6 s after a later False; now it
+returns at 2 s like the timeline (and the decorator). -/
+theorem C05_waituntil_regress_init_false :
     let cfg : Cfg := ⟨true, none, some 0⟩
     let hist : List Evt := [⟨2000, .eval true, 1⟩, ⟨4000, .eval false, 2⟩, ⟨6000, .eval true, 3⟩]
-    NoTies cfg hist ∧ WaitUntil.firstReturn cfg false hist = some (6000, 3) ∧
+    NoTies cfg hist ∧ WaitUntil.firstReturnPreFix cfg false hist = some (6000, 3) ∧
+      WaitUntil.firstReturn cfg false hist = some (2000, 1) ∧
       (Spec.holdRuns cfg false hist).head? = some (2000, 1) := by
   decide
 
-/-- **New subsystem, decorators** (code after the fixes `d4cc584`, `9670c81`): on EVERY no-ties history – messages that
-cause no evaluation included, with or without `state_hold` – `_cycle` produces exactly the timeline's runs: same
-times, and the arguments of the first candidate of each delay.  Still partial: outside
-`state_check_now ∧ state_hold_false ∧ initially true` (`C05_new_cex_checknow_holdfalse_no_start`, finding C05-F3). -/
-theorem C05_new_partial (cfg : Cfg) (b0 : Bool) (hist : List Evt) (h : NoTies cfg hist)
-    (hok : ¬ (cfg.checkNow = true ∧ cfg.holdFalse.isSome = true ∧ b0 = true)) :
+/-- **New subsystem, decorators: full** (code after the fixes `d4cc584`, `9670c81`, `e7ed034`): for every
+configuration, every initial truth and EVERY no-ties history – messages that cause no evaluation included, with or
+without `state_hold` / `state_hold_false` / `state_check_now` – `_cycle` produces exactly the timeline's runs: same
+times, and the arguments of the first candidate of each delay. -/
+theorem C05_new (cfg : Cfg) (b0 : Bool) (hist : List Evt) (h : NoTies cfg hist) :
     New.holdRuns cfg b0 hist = Spec.holdRuns cfg b0 hist := by
   unfold New.holdRuns New.holdRunsF Spec.holdRuns
-  obtain ⟨hs, hi⟩ := nabs_start cfg false b0 hok
-  have := new_sim cfg hist _ hi (fun s hs => by rw [nr_start_te cfg false b0 s hs]; exact h.1) h.2
+  obtain ⟨hs, hi⟩ := nabs_start cfg false b0
+  have := new_sim cfg hist _ hi (fun s hs => by rw [nr_start_te _ cfg false b0 s hs]; exact h.1) h.2
   rw [hs] at this
   rw [← this]
   rfl
 
-/-- **New subsystem, `task.wait_until`**: the first return is the first run of the timeline (same fragment; inside it
-the `state_hold_false` reset of `task.wait_until` is a no-op – outside see
-`C05_new_waituntil_cex_holdfalse_disabled`, finding C05-F5). -/
-theorem C05_new_waituntil_partial (cfg : Cfg) (b0 : Bool) (hist : List Evt) (h : NoTies cfg hist)
-    (hok : ¬ (cfg.checkNow = true ∧ cfg.holdFalse.isSome = true ∧ b0 = true)) :
+/-- **New subsystem, `task.wait_until`: full.**  The first return is the first run of the timeline. -/
+theorem C05_new_waituntil (cfg : Cfg) (b0 : Bool) (hist : List Evt) (h : NoTies cfg hist) :
     New.firstReturn cfg b0 hist = (Spec.holdRuns cfg b0 hist).head? := by
   unfold New.firstReturn New.firstReturnF Spec.holdRuns
-  obtain ⟨hs, hi⟩ := nabs_start cfg true b0 hok
-  have := new_sim cfg hist _ hi (fun s hs => by rw [nr_start_te cfg true b0 s hs]; exact h.1) h.2
+  obtain ⟨hs, hi⟩ := nabs_start cfg true b0
+  have := new_sim cfg hist _ hi (fun s hs => by rw [nr_start_te _ cfg true b0 s hs]; exact h.1) h.2
   rw [hs] at this
   rw [← this]
   rfl
@@ -108,20 +106,24 @@ theorem C05_new_regress_skip_starts_false_period :
       Spec.holdRuns cfg true hist = [] ∧ Legacy.holdRuns cfg true hist = [] := by
   decide
 
-/-- `state_check_now=True` with `state_hold_false`, expression true at definition time: the documented trigger at
-start does not happen in the new subsystem (`_check_new_state` demands a preceding false period). -/
-theorem C05_new_cex_checknow_holdfalse_no_start :
+/-- regression (fixed by `e7ed034`): `state_check_now=True` with `state_hold_false`, expression true at definition
+time.  BEFORE the fix the documented trigger at start did not happen in the new subsystem (`_check_new_state` demanded
+a preceding false period); now it does, like timeline and legacy. -/
+theorem C05_new_regress_checknow_holdfalse_no_start :
     let cfg : Cfg := ⟨true, none, some 2000⟩
-    New.holdRuns cfg true [] = [] ∧ Spec.holdRuns cfg true [] = [(0, 0)] ∧ Legacy.holdRuns cfg true [] = [(0, 0)] := by
+    New.holdRunsF New.preFix cfg true [] = [] ∧ New.holdRuns cfg true [] = [(0, 0)] ∧
+      Spec.holdRuns cfg true [] = [(0, 0)] ∧ Legacy.holdRuns cfg true [] = [(0, 0)] := by
   decide
 
-/-- new `task.wait_until(state_hold=5, state_hold_false=10)`, expression true at the call: `state_hold_false` is reset
-to `None` for good, so after False at 1 s the True at 2 s starts a new hold and the call returns at 7 s; timeline and
-legacy: the expression was false for 1 s only – no return. -/
-theorem C05_new_waituntil_cex_holdfalse_disabled :
+/-- regression (fixed by `e7ed034`): new `task.wait_until(state_hold=5, state_hold_false=10)`, expression true at the
+call.  BEFORE the fix `state_hold_false` was reset to `None` for good, so after False at 1 s the True at 2 s started a
+new hold and the call returned at 7 s; now, like timeline and legacy: the expression was false for 1 s only – no
+return. -/
+theorem C05_new_waituntil_regress_holdfalse_disabled :
     let cfg : Cfg := ⟨true, some 5000, some 10000⟩
     let hist : List Evt := [⟨1000, .eval false, 1⟩, ⟨2000, .eval true, 2⟩]
-    NoTies cfg hist ∧ New.firstReturn cfg true hist = some (7000, 2) ∧ (Spec.holdRuns cfg true hist).head? = none ∧
+    NoTies cfg hist ∧ New.firstReturnF New.preFix cfg true hist = some (7000, 2) ∧
+      New.firstReturn cfg true hist = none ∧ (Spec.holdRuns cfg true hist).head? = none ∧
       WaitUntil.firstReturn cfg true hist = none := by
   decide
 
@@ -139,12 +141,11 @@ theorem C05_irrelevant_legacy (cfg : Cfg) (b0 : Bool) (hist : List Evt) (h : NoT
   rw [C05_legacy cfg b0 _ h', C05_legacy cfg b0 _ h, C05_irrelevant cfg b0 hist (grid_sorted h.2)]
 
 /-- **Irrelevance (new subsystem, current code).**  Since `d4cc584` no timer of `_cycle` is touched by such changes
-either (fragment of `C05_new_partial`). -/
-theorem C05_irrelevant_new (cfg : Cfg) (b0 : Bool) (hist : List Evt) (h : NoTies cfg hist)
-    (hok : ¬ (cfg.checkNow = true ∧ cfg.holdFalse.isSome = true ∧ b0 = true)) :
+either. -/
+theorem C05_irrelevant_new (cfg : Cfg) (b0 : Bool) (hist : List Evt) (h : NoTies cfg hist) :
     New.holdRuns cfg b0 (hist.filter isEval) = New.holdRuns cfg b0 hist := by
   have h' : NoTies cfg (hist.filter isEval) := ⟨gridFrom_filter isEval h.1, grid_filter isEval h.2⟩
-  rw [C05_new_partial cfg b0 _ h' hok, C05_new_partial cfg b0 _ h hok, C05_irrelevant cfg b0 hist (grid_sorted h.2)]
+  rw [C05_new cfg b0 _ h', C05_new cfg b0 _ h, C05_irrelevant cfg b0 hist (grid_sorted h.2)]
 
 /-- non-vacuity: a history on the grid where the initial check starts a hold that fires (2.5 s), a hold that is
 cancelled (true 5 s, false 7 s), a `state_hold_false` rejection (true 8 s after 1 s of false), `skip`/`unrelated`
